@@ -61,7 +61,7 @@ def run(tier):
                              "events": r["events"], "final_results": r["final_results"],
                              "goroutines_parked_in_downloader": r["goroutines_parked_in_downloader"],
                              "diverging": sum(r["signatures"].values())})
-            for s in r.get("samples", [])[:1]:
+            for s in (r.get("samples") or [])[:1]:
                 b = json.loads(s)
                 res.sample({"events": [[e["ev"], e["obs"]["runDone"], e["obs"]["result"], e["obs"]["handler"]] for e in b["events"]]})
             if r["goroutines_parked_in_downloader"] > 0:
@@ -95,7 +95,7 @@ def run(tier):
                 res.add_known(f, v["msg"])
                 continue
             res.violation("%s: %s" % (v["scenario"], v["msg"]), {"engine": "bdn", "seed": sd, "scenario": v})
-        for s in r.get("samples", [])[:1]:
+        for s in (r.get("samples") or [])[:1]:
             res.sample({"node_window_schedule": s})
 
         # 5. traces of the real BlockManager validated against BlockManage.tla
